@@ -24,6 +24,8 @@ RULE = ("structured LPs (random, bounded, degenerate vertex, phase-1/equality pa
         "<= 10 thorough; a share with tiny max_iter); non-trivial = phase 1 ran or >= 2 pivots in the mirror; "
         "distinct by canonical (c, A, b, minimize, options)")
 
+MISSING = ['simplex_certifies [S]: the mirror emits a valid certificate on every input (tableau invariant); replaced by evaluating the verified checkers on every explored input']
+
 TOL = 1e-7          # property tolerance for solve_lp
 VTOL = 1e-9         # R_trace vertex tolerance
 IPM_TOL_FEAS = 1e-6  # solve_lp_interior OPTIMAL: feasibility (its residual test is 1e-8 in the 2-norm)
@@ -250,6 +252,7 @@ def run_cases(ctx, cases):
 
 def run(ctx, budget):
     ctx.cov["rule"] = RULE
+    ctx.cov["missing_theorems"] = MISSING
     cases = list(edge_cases()) + [c["case"] for c in core.load_corpus("C03")]
     n = 2000 * budget
     cases += [gen_case(ctx.rng, big=(ctx.tier == "thorough" and i % 3 == 0)) for i in range(n)]
